@@ -81,6 +81,11 @@ func UnmarshalIdentifiers(payload []byte, schema *Schema) (Identifiers, error) {
 	idens := make([]Identifier, len(raw))
 
 	for i, r := range raw {
+		if r == nil {
+			// A null element is decoded to a nil pointer.
+			return nil, errors.New("identifier is null")
+		}
+
 		iden, err := UnmarshalIdentifier(*r, schema)
 		if err != nil {
 			return nil, err
